@@ -3099,8 +3099,23 @@ static void jdf_generate_startup_tasks(const jdf_t *jdf, const jdf_function_entr
         if(vl->expr->op == JDF_RANGE) {
             coutput("%s  for(this_task->locals.%s.value = %s = %s;\n",
                     indent(nesting), vl->name, vl->name, dump_expr((void**)vl->expr->jdf_ta1, &info1));
-            coutput("%s      this_task->locals.%s.value <= %s;\n",
-                    indent(nesting), vl->name, dump_expr((void**)vl->expr->jdf_ta2, &info1));
+            /* Adapt the loop condition to the sign of the increment, as done for the
+             * internal_init loops: the execution space can be decreasing. */
+            if( JDF_OP_IS_CST(vl->expr->jdf_ta3->op) ) {
+                coutput("%s      this_task->locals.%s.value %s %s;\n",
+                        indent(nesting), vl->name,
+                        (vl->expr->jdf_ta3->jdf_cst >= 0) ? "<=" : ">=",
+                        dump_expr((void**)vl->expr->jdf_ta2, &info1));
+            } else {
+                char *inc_str = strdup(dump_expr((void**)vl->expr->jdf_ta3, &info1));
+                char *end_str = strdup(dump_expr((void**)vl->expr->jdf_ta2, &info1));
+                coutput("%s      ((((%s) >= 0) && (this_task->locals.%s.value <= (%s))) ||\n"
+                        "%s       (((%s) <  0) && (this_task->locals.%s.value >= (%s))));\n",
+                        indent(nesting), inc_str, vl->name, end_str,
+                        indent(nesting), inc_str, vl->name, end_str);
+                free(inc_str);
+                free(end_str);
+            }
             coutput("%s      this_task->locals.%s.value += %s, %s = this_task->locals.%s.value) {\n",
                     indent(nesting), vl->name, dump_expr((void**)vl->expr->jdf_ta3, &info1), vl->name, vl->name);
             nesting++;
